@@ -138,6 +138,48 @@ func TestVerifBounded_C07_Memberlist(t *testing.T) {
 		}
 		_ = services.StopAndAwaitTerminated(ctx, mkv)
 	}
+	// (1b) the caller keeps the object its function returned (and, the other way round, the object it was handed) and
+	//      changes it afterwards, on the call that creates the key and on a later one: the stored value must not follow -
+	//      a change without a compare-and-swap is a phantom update
+	for _, existing := range []bool{false, true} {
+		cases++
+		mkv, cl := verifNewKV(t)
+		key := "held"
+		if existing {
+			if err := cl.CAS(ctx, key, verifInc); err != nil {
+				t.Fatal(err)
+			}
+		}
+		var heldOut, heldIn *verifCounter
+		err := cl.CAS(ctx, key, func(in interface{}) (interface{}, bool, error) {
+			if in != nil {
+				heldIn = in.(*verifCounter)
+			}
+			o, r, e := verifInc(in)
+			heldOut = o.(*verifCounter)
+			return o, r, e
+		})
+		before, _ := cl.Get(ctx, key)
+		wantN := before.(*verifCounter).N
+		heldOut.N = 1000
+		heldOut.Stamp += 1000
+		if heldIn != nil {
+			heldIn.N = 2000
+		}
+		after, _ := cl.Get(ctx, key)
+		if err != nil || after.(*verifCounter).N != wantN {
+			report(fmt.Sprintf("c07-memberlist-held-reference:existing=%v", existing), fmt.Sprintf("err=%v; the stored counter went from %d to %d when the caller changed the object its function had returned / been handed, without any compare-and-swap", err, wantN, after.(*verifCounter).N))
+		}
+		var seenByNext int
+		_ = cl.CAS(ctx, key, func(in interface{}) (interface{}, bool, error) {
+			seenByNext = in.(*verifCounter).N
+			return nil, false, nil
+		})
+		if seenByNext != wantN {
+			report(fmt.Sprintf("c07-memberlist-held-reference:existing=%v:next", existing), fmt.Sprintf("the next compare-and-swap was handed %d, a value no successful call wrote (last written %d)", seenByNext, wantN))
+		}
+		_ = services.StopAndAwaitTerminated(ctx, mkv)
+	}
 	// (2) concurrent increments
 	for round := 0; round < 3; round++ {
 		mkv, cl := verifNewKV(t)
